@@ -31,10 +31,10 @@ type c12Cfg struct {
 }
 
 type c12Params struct {
-	Kind   string `json:"kind"` // enum | random | double
-	Cfg    c12Cfg `json:"cfg"`
+	Kind   string   `json:"kind"` // enum | random | double
+	Cfg    c12Cfg   `json:"cfg"`
 	Points []string `json:"points,omitempty"`
-	N      int    `json:"n"`
+	N      int      `json:"n"`
 }
 
 // c12Work is the configuration of one workload process.
